@@ -60,7 +60,8 @@ META = {
     'min': {'evaluations': 5000, 'distinct': 300,
             'classes': {'detect:cf1d': 3, 'detect:cf2d': 3, 'detect:shoc_simple': 3, 'detect:shoc_standard': 3, 'detect:ugrid': 3,
                         'near-miss:total': 100, 'near-miss:nothing-matches': 10, 'near-miss:falls-back-to-generic': 20,
-                        'near-miss:still-specific': 10, 'shuffled-copy': 100,
+                        'near-miss:still-specific': 10, 'shuffled-copy': 100, 'detection-after-explicit-construction': 40,
+                        'explicit-construction:shoc_standard': 3,
                         'fresh:0': 20, 'fresh:1': 20, 'fresh:4242': 20, 'fresh:random': 20,
                         'reg:orders': 50, 'reg:tie-manual-vs-builtin': 5, 'reg:tie-manual-vs-manual': 5,
                         'reg:builtin-higher': 3, 'reg:manual-higher': 5,
@@ -306,11 +307,14 @@ def detection_case(obs, rng, ctx, spec, pending):
     obs.expect(name == model.expected_class, 'generated dataset is handled by its own convention',
                lambda: {'got': name, 'want': model.expected_class}, mech='detection-rule')
     pending.append((dict(spec), name))
+    revisit = []
     for label, edited in near_misses(model, ds, rng, ctx.thorough):
         if not ds.identical(reference):
             raise AssertionError('harness: near-miss edit %r modified the original dataset' % label)
         matches, winner = rule(edited)
         got = observe_detection(obs, edited, rng, label, spec)
+        if winner != model.expected_class and len(revisit) < 2:
+            revisit.append((label, edited))
         obs.cls('near-miss:total')
         obs.cls('near-miss:' + label)
         if winner is None:
@@ -325,6 +329,53 @@ def detection_case(obs, rng, ctx, spec, pending):
             SAMPLED.add('a')
             obs.sample({'part': 'a', 'convention': conv, 'near-miss': label, 'rule matches': matches, 'rule winner': winner,
                         'get_dataset_convention': got})
+    if rng.random() < 0.5:
+        explicit_construction_step(obs, rng, spec, model, ds, revisit)
+
+
+def explicit_construction_step(obs, rng, spec, model, ds, revisit):
+    """Handling ONE dataset by hand - constructing a convention for it with explicit options, as the documentation
+    suggests for files nothing recognises - must not change what detection says about any other dataset afterwards."""
+    from emsarray.conventions import arakawa_c, grid
+    from ..model.grids import SHOC_COORDS
+    conv = spec['convention']
+    made = None
+    if conv == 'shoc_standard':
+        new_names = {kind: ('lat_%s_%d' % (kind, spec['case'] % 7), 'lon_%s_%d' % (kind, spec['case'] % 7)) for kind in SHOC_COORDS}
+        renames = {}
+        for kind, (y, x) in SHOC_COORDS.items():
+            renames[y], renames[x] = new_names[kind]
+        renamed = ds.rename(renames)
+        observe_detection(obs, renamed.copy(), rng, 'arakawa-coordinates-renamed', spec)
+        revisit = list(revisit) + [('arakawa-coordinates-renamed', renamed.copy())]
+        with quiet_warnings():
+            made = obs.call('ArakawaC(dataset, coordinate_names=)', arakawa_c.ArakawaC, renamed, coordinate_names=new_names)
+        if not isinstance(made, Failed):
+            size = obs.call('grid_size of the explicitly constructed convention', lambda: dict(made.grid_size))
+            if not isinstance(size, Failed):
+                obs.expect(size.get(model.kind_token('face')) == model.kinds['face'].size, 'explicitly constructed ArakawaC describes the dataset',
+                           lambda: {'got': size}, mech='explicit-construction')
+            if rng.random() < 0.5:
+                obs.call('bind the explicitly constructed convention', made.bind)
+    elif conv in ('cf1d', 'cf2d', 'shoc_simple'):
+        klass = {'cf1d': grid.CFGrid1D, 'cf2d': grid.CFGrid2D, 'shoc_simple': klass_named('ShocSimple')}[conv]
+        e = model.encoding
+        with quiet_warnings():
+            made = obs.call('%s(dataset, latitude=, longitude=)' % klass.__name__, klass, ds.copy(),
+                            latitude=e['lat_name'], longitude=e['lon_name'])
+        if not isinstance(made, Failed):
+            obs.call('grid_size of the explicitly constructed convention', lambda: dict(made.grid_size))
+    else:
+        with quiet_warnings():
+            made = obs.call('UGrid(dataset)', klass_named('UGrid'), ds.copy())
+        if not isinstance(made, Failed):
+            obs.call('grid_size of the explicitly constructed convention', lambda: dict(made.grid_size))
+    if made is None or isinstance(made, Failed):
+        return
+    obs.cls('explicit-construction:' + conv)
+    for label, other in [('generated', ds.copy())] + list(revisit):
+        observe_detection(obs, other, rng, label + ' (after an explicit construction)', spec)
+        obs.cls('detection-after-explicit-construction')
 
 
 def synthetic_unmatched(obs, rng, spec):
